@@ -194,13 +194,14 @@ _FAMILIES: Dict[str, Dict[str, type]] = {}
 _EXTRA = {"forbid": Extra.forbid, "ignore": Extra.ignore, "allow": Extra.allow}
 
 
-def build_family(fam: List[dict]) -> Dict[str, type]:
+def build_family(fam: List[dict], fresh: bool = False) -> Dict[str, type]:
     """Build (cached) the real MetadataSchema subclasses described by a family spec: name -> class.
 
     Raises whatever the real metaclass / decorators raise for an illegal definition.
+    fresh=True: build the classes again (new class objects with the SAME module and qualified names), not cached.
     """
     key = digest(fam)
-    if key in _FAMILIES:
+    if key in _FAMILIES and not fresh:
         return _FAMILIES[key]
     names = {s["name"]: f"{s['name']}_{key}" for s in fam}
     out: Dict[str, type] = {}
@@ -225,12 +226,14 @@ def build_family(fam: List[dict]) -> Dict[str, type]:
             cls = make_mandatory(*s["mandatory"])(cls)
         if s.get("override"):
             cls = override(*s["override"])(cls)
-        setattr(_THIS, names[s["name"]], cls)
+        if not fresh:
+            setattr(_THIS, names[s["name"]], cls)
         out[s["name"]] = cls
     ns_all = {names[n]: c for n, c in out.items()}
     for c in out.values():
         c.update_forward_refs(**ns_all)
-    _FAMILIES[key] = out
+    if not fresh:
+        _FAMILIES[key] = out
     return out
 
 
